@@ -88,6 +88,29 @@ Theorem C16_multi_writeto_spec : forall srcs c k, consumer_pos c -> 1 <= k ->
 Proof. exact multi_writeto_spec. Qed.
 Print Assumptions C16_multi_writeto_spec.
 
+(* "closed exactly once" over EVERY consumer behaviour.  The wrapper is used by ANY sequence of
+   calls - Read with any buffer size (0 included) and WriteTo with any copy sizes, in any order
+   and number, to destinations that may refuse a Write at any point (the copy then ends with the
+   writer's error and the chunk in flight is lost), the caller going on after errors or giving
+   up at any time - and then Close is called k >= 1 times: every closable source has been closed
+   exactly once, every other one never.  [multi_clean]: no read error anywhere in the sources is
+   http.ErrBodyReadAfterClose (see C16_multi_read_spec). *)
+Theorem C16_multi_closed_once_any_use : forall srcs ops k, multi_clean srcs = true -> 1 <= k ->
+  exists outs cb ca, multi_use srcs ops k = (outs, cb, ca) /\ multi_use_spec srcs ca.
+Proof. exact multi_use_spec_thm. Qed.
+Print Assumptions C16_multi_closed_once_any_use.
+
+(* The bytes for ANY MIX of the two consumption paths (some Read calls for a header, then io.Copy
+   for the rest; a WriteTo after a WriteTo; ...), with non-empty buffers and destinations that do
+   not fail: up to and including the first call that reports anything but nil, the calls
+   deliver exactly the concatenation of the sources up to the first one that does not end with
+   io.EOF, and that call reports that source's error - or the clean end (a nil return of WriteTo
+   is written EEOF); while every call so far reported nil, what was delivered is a prefix. *)
+Theorem C16_multi_any_path_spec : forall srcs ops k, multi_dom srcs = true -> Forall op_ok ops ->
+  exists outs cb ca, multi_use srcs ops k = (outs, cb, ca) /\ multi_stream_spec srcs outs.
+Proof. exact multi_any_path_spec. Qed.
+Print Assumptions C16_multi_any_path_spec.
+
 (* The code before the fix never closed a source on the WriteTo path. *)
 Theorem C16_multi_writeto_refuted : exists srcs out e cb ca,
   multi_run Original srcs (ViaWriteTo copy_consumer) None 1 = (out, Some e, cb, ca) /\
@@ -143,3 +166,13 @@ Theorem C16_tee_stop_oracle_sound : forall s out w sc wc,
   tee_stop_oracle s out w sc wc = true <-> tee_stop_spec s out w sc wc.
 Proof. exact tee_stop_oracle_sound. Qed.
 Print Assumptions C16_tee_stop_oracle_sound.
+
+Theorem C16_multi_use_oracle_sound : forall srcs ca,
+  multi_use_oracle srcs ca = true <-> (multi_clean srcs = true -> multi_use_spec srcs ca).
+Proof. exact multi_use_oracle_sound. Qed.
+Print Assumptions C16_multi_use_oracle_sound.
+
+Theorem C16_multi_stream_oracle_sound : forall srcs outs,
+  multi_stream_oracle srcs outs = true <-> multi_stream_spec srcs outs.
+Proof. exact multi_stream_oracle_sound. Qed.
+Print Assumptions C16_multi_stream_oracle_sound.
